@@ -39,6 +39,10 @@ end
 theorem simpOK_true : SimpOK (α := α) (fun _ => true) :=
   ⟨fun _ _ f _ _ => allLits_true f, fun e _ => allLits_true _⟩
 
+/-- with the default configuration the range tracking is off: nothing to show. -/
+theorem bTrack_off (p : α → Bool) : BTrack (α := α) p := fun h => nomatch h
+theorem bOK_off (p : α → Bool) (s : St α) : BOK p s := fun h => nomatch h
+
 /-- the names a row may carry: none, or a name the user gave to a source constraint. -/
 def SrcName (m : Model α) (n : String) : Prop := n = "" ∨ n ∈ m.constraints.map (·.name)
 
@@ -54,9 +58,9 @@ theorem run_struct {m : Model α} {b : BoundsMap α} {d : List (DomVar α)} {lm 
     ∃ (obj : Ctx α) (s : St α), Rel (SrcName m) (fun _ => true) (initSt m b d) s ∧
       StOK (SrcName m) (fun _ => true) s ∧ lm = assemble m obj s := by
   obtain ⟨obj, s, hr, hok, _, hlm⟩ :=
-    linearizeWith_run (N := SrcName m) (Or.inl rfl) closed_true simpOK_true (allLits_true _)
-      (stOK_init_true m b d) h
-  exact ⟨obj, s, hr, hok, hlm⟩
+    linearizeWith_run (N := SrcName m) (Or.inl rfl) closed_true simpOK_true (bTrack_off _) (allLits_true _)
+      ⟨stOK_init_true m b d, bOK_off _ _⟩ h
+  exact ⟨obj, s, hr, hok.1, hlm⟩
 
 /-! ### facets of the assembled model -/
 
@@ -279,8 +283,8 @@ theorem missing_bounds_global {m : Model α} {b : BoundsMap α} {d : List (DomVa
     ∃ (e : Exp α) (bm : BoundsMap α), vs = varsWithoutFiniteBounds e bm ∧
       ∀ x ∈ d.map (·.name), lookupB bm x = lookupB b x := by
   obtain ⟨s', hr, herr⟩ :=
-    linearizeWith_error (N := fun _ => True) trivial closed_true simpOK_true (allLits_true _)
-      (p := fun _ => true) ⟨fun c _ => ⟨trivial, allLits_true _, allLits_true _⟩, by simp [initSt]⟩ h
+    linearizeWith_error (N := fun _ => True) trivial closed_true simpOK_true (bTrack_off _) (allLits_true _)
+      (p := fun _ => true) ⟨⟨fun c _ => ⟨trivial, allLits_true _, allLits_true _⟩, by simp [initSt]⟩, bOK_off _ _⟩ h
   obtain ⟨e, he⟩ := herr
   exact ⟨e, s'.bounds, he, fun x hx => hr.bnd x hx⟩
 
